@@ -88,6 +88,9 @@ def signal(s):
     return out
 
 
+EMPTY_SIGNAL = {"t": None, **{a: None for a in SIGNAL_SLOTS}}
+
+
 def occupancies(p):
     return {"t0": int(p.initial_time_step), "occ": [{"t": int_eoi(o.time_step), "shape": shape(o.shape)} for o in p.occupancy_set]}
 
@@ -167,7 +170,8 @@ def snapshot(sc, pps, header=None, field_order=None):
                              "crossings": _sorted_ids(i.crossings)} for i in ln.intersections]
 
     def series(o):
-        return [signal(s) for s in o.signal_series] if o.signal_series is not None else []
+        # an entry the reader could not tell from "nothing set" comes back as Python None: shown as the all-unset signal state
+        return [signal(s) or dict(EMPTY_SIGNAL) for s in o.signal_series] if o.signal_series is not None else []
 
     out["static"] = [{"id": int(o.obstacle_id), "type": o.obstacle_type.name, "shape": shape(o.obstacle_shape),
                       "init": state(o.initial_state, field_order), "sig0": signal(o.initial_signal_state), "series": series(o)}
@@ -236,6 +240,10 @@ def expected(snap):
     for k in ("static", "dynamic", "pps"):
         for o in e[k]:
             o["init"] = expect_initial(o["init"])
+    for k in ("static", "dynamic"):
+        for o in e[k]:
+            if o["sig0"] == EMPTY_SIGNAL:          # a signal state without any slot carries no information: reads back as None
+                o["sig0"] = None
     if e["tags"] is None:
         e["tags"] = []
     return canon_order(strip_cls(e))
